@@ -5,6 +5,7 @@ package main
 // (what decoding the output must return).
 
 import (
+	"bytes"
 	"fmt"
 	"strings"
 
@@ -152,7 +153,55 @@ func imageDoc(api int, v interface{}, rt, et string) map[string]interface{} {
 }
 
 // xenc ap textK esc goEmpty api val rt et
+// xenci attrPrefix textK escape goEmpty prefix indent map rootTag : Map.XmlIndent beside
+// Mxj.Model.EncodeIndent.mapXmlIndent (byte for byte)
+func c03IndentExec(op string) string {
+	c, _ := newCur(op)
+	ap := c.str()
+	c.str()
+	esc := c.boolean()
+	goEmpty := c.boolean()
+	pfx := c.str()
+	ind := c.str()
+	m := c.mapVal()
+	rt := c.str()
+	if c.err != nil {
+		return "bad-op " + c.err.Error()
+	}
+	mxj.SetAttrPrefix(ap)
+	mxj.XMLEscapeChars(esc)
+	if goEmpty {
+		mxj.XmlGoEmptyElemSyntax()
+	}
+	var b []byte
+	var err error
+	if rt == "" {
+		b, err = mxj.Map(m).XmlIndent(pfx, ind)
+	} else {
+		b, err = mxj.Map(m).XmlIndent(pfx, ind, rt)
+	}
+	if err != nil {
+		return "err"
+	}
+	// the Writer form writes exactly these bytes
+	var w bytes.Buffer
+	note := ""
+	var werr error
+	if rt == "" {
+		werr = mxj.Map(m).XmlIndentWriter(&w, pfx, ind)
+	} else {
+		werr = mxj.Map(m).XmlIndentWriter(&w, pfx, ind, rt)
+	}
+	if werr != nil || w.String() != string(b) {
+		note = "XmlIndentWriter writes something else than XmlIndent returns"
+	}
+	return "ok " + encStr(string(b)) + " | " + note
+}
+
 func c03Exec(op string) string {
+	if strings.HasPrefix(op, "xenci ") {
+		return c03IndentExec(op)
+	}
 	c, _ := newCur(op)
 	ap := c.str()
 	c.str()
@@ -231,6 +280,15 @@ func c03Exec(op string) string {
 }
 
 func c03Describe(op string) string {
+	if strings.HasPrefix(op, "xenci ") {
+		c, _ := newCur(op)
+		ap := c.str()
+		c.str()
+		esc, ge := c.boolean(), c.boolean()
+		pfx, ind := c.str(), c.str()
+		m := c.mapVal()
+		return fmt.Sprintf("Map.XmlIndent(prefix=%q, indent=%q, rootTag=%q) attrPrefix=%q escaping=%v goEmpty=%v map=%s", pfx, ind, c.str(), ap, esc, ge, jsonOf(m))
+	}
 	c, _ := newCur(op)
 	ap := c.str()
 	c.str()
@@ -254,6 +312,10 @@ func c03Judge(op, impl, model string) Verdict {
 	}
 	ip := splitModel(impl)
 	v.CorrOK = ip[0] == model
+	if strings.HasPrefix(op, "xenci ") {
+		v.Tags = []string{"xenci"}
+		v.CorrOK = ip[0] == model || (ip[0] == "err" && strings.HasPrefix(model, "err"))
+	}
 	v.Nontrivial = strings.HasPrefix(impl, "ok")
 	if len(ip) > 1 && ip[1] != "" {
 		v.OracleFail = ip[1]
@@ -327,6 +389,9 @@ func (r *Rng) c03Map(depth int) map[string]interface{} {
 	}
 	if r.P(25) {
 		m["#text"] = r.Pick(xmlTexts)
+		if r.P(15) {
+			m["#text"] = "" // an empty text value beside attributes and/or children
+		}
 	}
 	return m
 }
@@ -334,6 +399,19 @@ func (r *Rng) c03Map(depth int) map[string]interface{} {
 func c03Gen(r *Rng, n int) []string {
 	var ops []string
 	for len(ops) < n {
+		if r.P(25) {
+			m := r.c03Map(1)
+			if r.P(50) {
+				m = map[string]interface{}{r.Pick(xmlValueNames): r.c03Map(1)}
+			}
+			rt := ""
+			if r.P(30) {
+				rt = r.Pick([]string{"root", "doc", "r"})
+			}
+			ops = append(ops, fmt.Sprintf("xenci %s %s %d %d %s %s %s %s", encStr("-"), encStr("#text"), b2i(r.P(60)), b2i(r.P(15)),
+				encStr(r.Pick([]string{"", "", " ", "  ", "\t", "xx"})), encStr(r.Pick([]string{"  ", " ", "\t", "", "--"})), enc(m), encStr(rt)))
+			continue
+		}
 		api := r.Intn(4)
 		var v interface{}
 		if api <= 1 {
